@@ -79,6 +79,41 @@ pub fn stackmap_class(code_len: usize, deltas: &[u16]) -> Vec<u8> {
 		(nops(code_len - 1), vec![], vec![attr(name, &b)])
 	}, no_attrs)
 }
+/// StackMapTable with frames of every kind at the given offset deltas: same (short / extended), same_locals_1_stack_item
+/// (short / extended, type 247), chop, append, full — with Integer / Object / Uninitialized verification types
+pub fn stackmap_kinds_class(code_len: usize, deltas: &[u16]) -> Vec<u8> {
+	one_method_class(|p| {
+		let name = p.utf8("StackMapTable");
+		let obj = p.class("java/lang/Object");
+		let mut b = vec![]; u16be(&mut b, deltas.len() as u16);
+		for (i, &d) in deltas.iter().enumerate() {
+			match i % 7 {
+				0 => { if d < 64 { b.push(d as u8); } else { b.push(251); u16be(&mut b, d); } }
+				1 => { if d < 64 { b.push(64 + d as u8); } else { b.push(247); u16be(&mut b, d); } b.push(1); }
+				2 => { b.push(247); u16be(&mut b, d); b.push(7); u16be(&mut b, obj); }
+				3 => { b.push(252); u16be(&mut b, d); b.push(1); }
+				4 => { b.push(250); u16be(&mut b, d); }
+				5 => { b.push(255); u16be(&mut b, d); u16be(&mut b, 2); b.push(1); b.push(8); u16be(&mut b, 0); u16be(&mut b, 1); b.push(4); }
+				_ => { b.push(254); u16be(&mut b, d); b.push(3); b.push(2); b.push(7); u16be(&mut b, obj); }
+			}
+		}
+		(nops(code_len - 1), vec![], vec![attr(name, &b)])
+	}, no_attrs)
+}
+/// 65535 bytes of code (the maximum) that grows when it is written: `ldc` of constants whose indices exceed 255 in the
+/// written pool (see ldc_growth_far_branch_class); the writer must refuse (code_length), not crash
+pub fn ldc_growth_max_code_class(n_ints: usize, code_len: usize) -> Vec<u8> {
+	let mut p = Pool::new();
+	let ints: Vec<u16> = (0..n_ints).map(|i| p.int(1000 + i as i32)).collect();
+	let this = p.class("T"); let sup = p.class("java/lang/Object");
+	let (n, d, c) = (p.utf8("m"), p.utf8("()V"), p.utf8("Code"));
+	let mut code: Vec<u8> = vec![];
+	for &i in &ints { code.push(0x12); code.push(i as u8); code.push(0x57); }
+	while code.len() + 1 < code_len { code.push(0x00); }
+	code.push(0xb1);
+	let m = member(0x0009, n, d, &[attr(c, &code_body(4, 4, &code, &[], &[]))]);
+	class_file(52, &p, 0x0021, this, sup, &[], &[], &[m], &[])
+}
 /// 65535 bytes of code with a label on each of the first `lines` offsets (LineNumberTable) and,
 /// with `with_end`, one more at offset 65535 (exclusive end of a local variable range)
 pub fn label_flood_class(lines: usize, with_end: bool) -> Vec<u8> {
@@ -277,6 +312,50 @@ pub fn deep_annotation_class_mode(attr_name: &str, depth: usize, mode: u8) -> Ve
 	})
 }
 
+/// a branch whose distance is exactly at the i16 limit in the input, over `ldc` instructions whose constants
+/// sit at the very start of the input pool: the writer's pool puts the class and member names first, so the
+/// last constants get indices above 255, their `ldc` becomes `ldc_w`, the code between the branch and its
+/// target grows and the written branch no longer fits 16 bits (the writer's far-branch paths)
+pub fn ldc_growth_far_branch_class(opcode: u8, n_ints: usize, backward: bool) -> Vec<u8> {
+	let mut p = Pool::new();
+	let ints: Vec<u16> = (0..n_ints).map(|i| p.int(1000 + i as i32)).collect();
+	let this = p.class("T"); let sup = p.class("java/lang/Object");
+	let (n, d, c) = (p.utf8("m"), p.utf8("()V"), p.utf8("Code"));
+	let mut code: Vec<u8> = vec![];
+	if backward {
+		// target at 0; ldc/pop pairs; padding; the branch at offset 32768 jumps back by -32768
+		for &i in &ints { code.push(0x12); code.push(i as u8); code.push(0x57); }
+		while code.len() < 32768 { code.push(0x00); }
+		code.push(opcode); code.extend_from_slice(&(-32768i16).to_be_bytes());
+		code.push(0xb1);
+	} else {
+		// the branch at offset 0 jumps forward by +32767 to the return
+		code.push(opcode); code.extend_from_slice(&32767i16.to_be_bytes());
+		for &i in &ints { code.push(0x12); code.push(i as u8); code.push(0x57); }
+		while code.len() < 32767 { code.push(0x00); }
+		code.push(0xb1);
+	}
+	let m = member(0x0009, n, d, &[attr(c, &code_body(4, 4, &code, &[], &[]))]);
+	class_file(52, &p, 0x0021, this, sup, &[], &[], &[m], &[])
+}
+
+/// abstract method `v()I` with an AnnotationDefault attribute whose value nests `depth` containers
+/// (modes as for deep_annotation_class_mode): the reader enters through read_element_value_unnamed
+pub fn annotation_default_class(depth: usize, mode: u8) -> Vec<u8> {
+	let mut p = Pool::new();
+	let this = p.class("T"); let sup = p.class("java/lang/Object");
+	let (n, d, ad, k) = (p.utf8("v"), p.utf8("()I"), p.utf8("AnnotationDefault"), p.int(1));
+	let (ty, el) = (p.utf8("LA;"), p.utf8("v"));
+	let mut b = vec![];
+	for i in 0..depth {
+		let annotation = match mode { 0 => false, 1 => true, 2 => i % 2 == 1, _ => i % 2 == 0 };
+		if annotation { b.push(b'@'); u16be(&mut b, ty); u16be(&mut b, 1); u16be(&mut b, el); } else { b.push(b'['); u16be(&mut b, 1); }
+	}
+	b.push(b'I'); u16be(&mut b, k);
+	let m = member(0x0401, n, d, &[attr(ad, &b)]);
+	class_file(61, &p, 0x2601, this, sup, &[], &[], &[m], &[])
+}
+
 pub fn attr_length_class(level: usize, attr_name: &str, declared: u32, actual_body: usize) -> Vec<u8> {
 	// level 0 class, 1 field, 2 method, 3 code
 	let mut p = Pool::new();
@@ -427,6 +506,34 @@ pub fn targeted(thorough: bool, out: &mut Vec<Input>) {
 			class_file(61, &p, 0x2601, this, sup, &[], &[], &[m], &[])
 		};
 		out.push(cls(s, "deep-element-value", format!("AnnotationDefault: arrays nested {depth} deep"), bytes));
+	}
+	// 9b. ldc of a method handle of every reference kind (and the two undefined kinds next to them), on a field / method / interface method
+	for kind in 0..=10u8 {
+		for target in 0..3u8 {
+			let bytes = one_method_class(|p| {
+				let r = match target { 0 => p.fieldref("A", "f", "I"), 1 => p.methodref("A", "m", "()V"), _ => { let a = p.class("A"); let b = p.nat("m", "()V"); p.idx2(11, a, b) } };
+				let h = p.handle(kind, r);
+				let mut c = vec![0x13]; u16be(&mut c, h); c.push(0x57); c.push(0xb1);
+				(c, vec![], vec![])
+			}, no_attrs);
+			out.push(cls(s, "method-handle-kinds", format!("ldc_w of a method handle of kind {kind} on a {}", ["field", "method", "interface method"][target as usize]), bytes));
+		}
+	}
+	// 9c. branches at the 16-bit limit over code that grows when it is written (ldc -> ldc_w)
+	for opcode in [0x99u8, 0x9f, 0xa7, 0xa8, 0xc6, 0xc7] {
+		for backward in [false, true] {
+			for n_ints in [240usize, 250, 254] {
+				out.push(cls(s, "far-branch-after-growth", format!("opcode {opcode:#x} with a {} branch of exactly {} bytes over {n_ints} ldc instructions whose constants get indices above 255 in the written pool", if backward { "backward" } else { "forward" }, if backward { 32768 } else { 32767 }), ldc_growth_far_branch_class(opcode, n_ints, backward)));
+			}
+		}
+	}
+	// 9d. code at the size limit that grows when written; stack map frames of every kind with short and long deltas
+	for (n_ints, len) in [(254usize, 65535usize), (254, 65534), (254, 65530), (250, 65535), (240, 65535)] {
+		out.push(cls(s, "max-code-growth", format!("{len} bytes of code with {n_ints} ldc instructions that become ldc_w when written"), ldc_growth_max_code_class(n_ints, len)));
+	}
+	for deltas in [vec![0u16, 0, 0, 0, 0, 0, 0], vec![1, 2, 3, 4, 5, 6, 7], vec![63, 63, 63, 63, 63, 63, 63], vec![64, 64, 64, 64, 64, 64, 64], vec![100, 200, 300, 64, 63, 0, 1000], vec![0, 100, 64, 2, 2, 2, 2, 70, 70, 70]] {
+		let total: usize = deltas.iter().map(|&d| d as usize + 1).sum();
+		out.push(cls(s, "stack-map-kinds", format!("StackMapTable with one frame of every kind, offset deltas {deltas:?}"), stackmap_kinds_class(total + 4, &deltas)));
 	}
 	// 10. constant pool edge cases
 	{
@@ -652,7 +759,98 @@ pub fn texts(rng: &mut Rng, thorough: bool, out: &mut Vec<Input>) {
 			("parameter index negative".into(), [hdr, b"c\tA\tB\n\tm\t()V\ta\tb\n\t\tp\t-1\t\tx\n"].concat()),
 			("escape at end of comment".into(), [hdr, b"c\tA\tB\n\tc\tdoc\\\n"].concat()),
 		];
+		// parameter indices that parse (up to usize::MAX) must not size anything
+		for idx in ["4294967295", "4294967296", "1000000000000", "9223372036854775807", "18446744073709551615", "18446744073709551616", "+18446744073709551615", "00000000000000000000000000000007", "+", "+-1", "1_000", "１２"] {
+			let body = match kind {
+				K_TINY => format!("c\tA\tB\n\tm\t(I)V\ta\tb\n\t\tp\t{idx}\t\tx\n"),
+				K_DIFF => format!("c\tA\n\tm\t(I)V\ta\n\t\tp\t{idx}\t\t\tx\n"),
+				K_ENIGMA => format!("CLASS A\n\tMETHOD m (I)V\n\t\tARG {idx} x\n"),
+				_ => format!("a/B$C\ta/B\t\t\tC\t{idx}\n"),
+			};
+			shapes.push((format!("index / access field {idx:?}"), [hdr, body.as_bytes()].concat()));
+		}
+		if kind == K_DIFF {
+			for (what, body) in [
+				("parameter with a src name", "c\tA\tX\tY\n\tm\t()V\tp\tq\tr\n\t\tp\t0\tsrc\t\targ\n"),
+				("parameter without src field", "c\tA\tX\tY\n\tm\t()V\tp\tq\tr\n\t\tp\t0\n"),
+				("parameter index only plus sign", "c\tA\tX\tY\n\tm\t()V\tp\tq\tr\n\t\tp\t+\t\t\targ\n"),
+				("parameter index with plus", "c\tA\tX\tY\n\tm\t()V\tp\tq\tr\n\t\tp\t+7\t\t\targ\n"),
+				("duplicate class", "c\tA\tX\tY\nc\tA\tX\tZ\n"),
+				("duplicate field", "c\tA\n\tf\tI\tx\t\ty\n\tf\tI\tx\ty\t\n"),
+				("duplicate method", "c\tA\n\tm\t()V\tx\n\tm\t()V\tx\n"),
+				("duplicate parameter", "c\tA\n\tm\t(II)V\tx\n\t\tp\t1\t\t\ta\n\t\tp\t1\t\t\tb\n"),
+				("two class comments", "c\tA\n\tc\t\ta\n\tc\t\tb\n"),
+				("comment with equal sides", "c\tA\n\tc\tsame\\n\tsame\\n\n"),
+				("comment with three fields", "c\tA\n\tc\ta\tb\tc\n"),
+				("class with four fields", "c\tA\tX\tY\tZ\n"),
+				("class key invalid", "c\ta.b\tX\tY\n"),
+				("class key only", "c\tA\n"),
+				("class without key", "c\n"),
+				("field without name", "c\tA\n\tf\tI\n"),
+				("method name invalid", "c\tA\n\tm\t()V\t<x>\n"),
+				("header with a namespace", ""),
+				("unknown tags and a deeper line", "x\ty\n\tz\n"),
+			] {
+				let h: &[u8] = if what == "header with a namespace" { b"tiny\t2\t0\ta\n" } else { hdr };
+				shapes.push((what.into(), [h, body.as_bytes()].concat()));
+			}
+		}
+		if kind == K_TINY {
+			for (what, body) in [
+				("duplicate class", "c\tA\tB\nc\tA\tC\n"),
+				("class without first name", "c\t\tB\n"),
+				("duplicate field", "c\tA\tB\n\tf\tI\tx\ty\n\tf\tI\tx\tz\n"),
+				("same field name other descriptor", "c\tA\tB\n\tf\tI\tx\ty\n\tf\tJ\tx\tz\n"),
+				("duplicate method", "c\tA\tB\n\tm\t()V\tx\ty\n\tm\t()V\tx\tz\n"),
+				("duplicate parameter", "c\tA\tB\n\tm\t(II)V\tx\ty\n\t\tp\t1\t\ta\n\t\tp\t+1\t\tb\n"),
+				("parameter without names", "c\tA\tB\n\tm\t(I)V\tx\ty\n\t\tp\t1\n"),
+				("two comments on every level", "\tc\th1\n\tc\th2\n"),
+				("two class comments", "c\tA\tB\n\tc\ta\n\tc\tb\n"),
+				("two field comments", "c\tA\tB\n\tf\tI\tx\ty\n\t\tc\ta\n\t\tc\tb\n"),
+				("two parameter comments", "c\tA\tB\n\tm\t(I)V\tx\ty\n\t\tp\t0\t\ta\n\t\t\tc\ta\n\t\t\tc\tb\n"),
+				("comment with two fields", "c\tA\tB\n\tc\ta\tb\n"),
+				("comment without text", "c\tA\tB\n\tc\n"),
+				("header comment then classes", "\tc\tabout\nc\tA\tB\n"),
+				("header sub-section too deep", "\t\tc\tabout\n"),
+				("unknown tags on every level", "x\nc\tA\tB\n\tx\n\tm\t()V\ta\tb\n\t\tx\n\t\tp\t0\t\tq\n\t\t\tx\n"),
+				("line below an unknown tag", "x\n\ty\n"),
+				("field without descriptor", "c\tA\tB\n\tf\n"),
+				("method name <init> and <clinit>", "c\tA\tB\n\tm\t()V\t<init>\t<init>\n\tm\t()V\t<clinit>\t<x>\n"),
+				("three names", "c\tA\tB\tC\n"),
+				("one name", "c\tA\n"),
+				("empty line in the middle", "c\tA\tB\n\nc\tC\tD\n"),
+				("empty line inside a class", "c\tA\tB\n\tf\tI\tx\ty\n\n\tf\tI\tz\ty\n"),
+			] { shapes.push((what.into(), [hdr, body.as_bytes()].concat())); }
+		}
 		if kind == K_ENIGMA {
+			for (what, body) in [
+				("duplicate class", "CLASS A B\nCLASS A C\n"),
+				("duplicate nested class", "CLASS A B\n\tCLASS X\n\tCLASS X\n"),
+				("nested class equals a top-level one", "CLASS A$X\nCLASS A\n\tCLASS X\n"),
+				("duplicate field", "CLASS A\n\tFIELD x I\n\tFIELD x y I\n"),
+				("duplicate method", "CLASS A\n\tMETHOD m ()V\n\tMETHOD m n ()V\n"),
+				("duplicate ARG", "CLASS A\n\tMETHOD m (II)V\n\t\tARG 1 a\n\t\tARG +1 b\n"),
+				("modifier in every position", "CLASS A ACC:PUBLIC\n\tFIELD x I ACC:PRIVATE\n\tFIELD y z I ACC:X\n\tMETHOD m ()V ACC:\n\tCLASS I J ACC:PROTECTED\n"),
+				("five arguments", "CLASS A B C D\n"),
+				("FIELD with one argument", "CLASS A\n\tFIELD x\n"),
+				("FIELD with five arguments", "CLASS A\n\tFIELD a b c d e\n"),
+				("ARG with three arguments", "CLASS A\n\tMETHOD m ()V\n\t\tARG 0 a b\n"),
+				("unknown tag in every section", "CLASS A\n\tFOO\n"),
+				("unknown tag below FIELD", "CLASS A\n\tFIELD x I\n\t\tFOO\n"),
+				("unknown tag below METHOD", "CLASS A\n\tMETHOD m ()V\n\t\tFOO\n"),
+				("unknown tag below ARG", "CLASS A\n\tMETHOD m ()V\n\t\tARG 0 a\n\t\t\tFOO\n"),
+				("root FIELD", "FIELD x I\n"),
+				("adjacent blanks make empty names", "CLASS  A\n"),
+				("nested class with empty name", "CLASS A\n\tCLASS  X\n"),
+				("COMMENT lines everywhere", "CLASS A\n\tCOMMENT a\n\tCOMMENT  b  c \n\tMETHOD m ()V\n\t\tCOMMENT\n\t\tARG 0 a\n\t\t\tCOMMENT x # y\n"),
+				("hash directly after the tag", "CLASS A#B\n\tFIELD x I# c\n"),
+				("only blanks and a hash", "  \t # x\nCLASS A\n"),
+				("blank lines between sections", "CLASS A\n\n\tFIELD x I\n   \n\tFIELD y I\n"),
+				("deeper line after a removed blank line", "CLASS A\n\t\t\n\t\tFIELD x I\n"),
+				("invalid names", "CLASS a.b\n"),
+				("invalid method name", "CLASS A\n\tMETHOD <x> ()V\n"),
+				("array class name", "CLASS [I\n"),
+			] { shapes.push((what.into(), body.as_bytes().to_vec())); }
 			for depth in [10usize, 64, 65, 66, 67, 200, 1500, 6000] {
 				let mut v = vec![];
 				for d in 0..depth { v.extend(std::iter::repeat(b'\t').take(d)); v.extend_from_slice(b"CLASS A B\n"); }
@@ -669,6 +867,13 @@ pub fn texts(rng: &mut Rng, thorough: bool, out: &mut Vec<Input>) {
 			for acc in ["0x", "0b", "0x10000", "65536", "-1", "0xFFFF", "0b2", "+5", "", " 1", "0X10", "1e3", "0x-1", "0x+1"] {
 				shapes.push((format!("access field {acc:?}"), format!("a/B$C\ta/B\t\t\tC\t{acc}\n").into_bytes()));
 			}
+			shapes.push(("missing class name".into(), b"\ta/B\t\t\tC\t8\n".to_vec()));
+			shapes.push(("missing enclosing class name".into(), b"a/B$C\t\t\t\tC\t8\n".to_vec()));
+			shapes.push(("missing inner name".into(), b"a/B$C\ta/B\t\t\t\t8\n".to_vec()));
+			shapes.push(("invalid enclosing method name".into(), b"a/B$C\ta/B\t<m>\t()V\tC\t8\n".to_vec()));
+			shapes.push(("method name without descriptor".into(), b"a/B$C\ta/B\tm\t\tC\t8\n".to_vec()));
+			shapes.push(("array class name".into(), b"[La/B;\ta/B\t\t\tC\t8\n".to_vec()));
+			shapes.push(("second line broken".into(), b"a/B$C\ta/B\t\t\tC\t8\na/B$D\ta/B\t\t\tD\t0x1FFFF\n".to_vec()));
 			shapes.push(("5 fields".into(), b"a\tb\tc\td\te\n".to_vec()));
 			shapes.push(("7 fields".into(), b"a\tb\tc\td\te\tf\tg\n".to_vec()));
 			shapes.push(("empty line between".into(), b"a/B$C\ta/B\t\t\tC\t8\n\na/B$D\ta/B\t\t\tD\t8\n".to_vec()));
@@ -679,7 +884,7 @@ pub fn texts(rng: &mut Rng, thorough: bool, out: &mut Vec<Input>) {
 	hostile_cells(out);
 	// descriptors / names
 	let dn = if thorough { 20000 } else { 4000 };
-	let alpha: Vec<&[u8]> = vec![b"B", b"I", b"L", b"V", b"[", b"(", b")", b";", b"/", b".", b"a", b"$", b"<", b">", "é".as_bytes(), "😀".as_bytes(), b"Ljava/lang/Object;", b"[[", b"()", b"\0"];
+	let alpha: Vec<&[u8]> = vec![b"B", b"C", b"D", b"F", b"I", b"J", b"S", b"Z", b"L", b"V", b"[", b"(", b")", b";", b"/", b".", b"a", b"$", b"<", b">", "é".as_bytes(), "😀".as_bytes(), b"Ljava/lang/Object;", b"[[", b"()", b"\0"];
 	for _ in 0..dn {
 		let mut v = vec![];
 		for _ in 0..rng.below(9) { let piece: &[u8] = alpha[rng.below(alpha.len())]; v.extend_from_slice(piece); }
